@@ -1351,8 +1351,12 @@ pub struct ParserState {
     /// The deepest action nesting reached since it was last reset; used to learn how deeply the
     /// action of an alias is nested.
     action_nest_max: Cell<u16>,
-    /// How deeply the action of each alias is nested, including the aliases it uses.
-    alias_nesting: HashMap<String, u16>,
+    /// How deeply the action of each alias is nested, and how many actions it consists of, both
+    /// including the aliases it uses.
+    alias_nesting: HashMap<String, (u16, u64)>,
+    /// The number of actions in the configuration so far, counting the action of an alias again
+    /// at every use. The passes that run over the actions after parsing visit them that often.
+    action_count: Cell<u64>,
     pctx: ParserContext,
     pub lsp_hints: RefCell<LspHints>,
     a: Arc<Allocations>,
@@ -1387,6 +1391,7 @@ impl Default for ParserState {
             action_nest_count: Cell::new(0),
             action_nest_max: Cell::new(0),
             alias_nesting: Default::default(),
+            action_count: Cell::new(0),
             lsp_hints: Default::default(),
             a: unsafe { Allocations::new() },
             pctx: ParserContext::default(),
@@ -1698,9 +1703,15 @@ fn read_alias_name_action_pairs<'a>(
             None => bail_expr!(alias_expr, "Found alias without an action - add an action"),
         };
         s.action_nest_max.set(0);
+        let actions_before = s.action_count.get();
         let action = parse_action(action, s)?;
-        s.alias_nesting
-            .insert(alias.into(), s.action_nest_max.get());
+        s.alias_nesting.insert(
+            alias.into(),
+            (
+                s.action_nest_max.get(),
+                s.action_count.get().saturating_sub(actions_before),
+            ),
+        );
         if s.aliases.insert(alias.into(), action).is_some() {
             bail_expr!(alias_expr, "Duplicate alias: {}", alias);
         }
@@ -1719,6 +1730,25 @@ fn read_alias_name_action_pairs<'a>(
 /// and nesting through variables is not limited by the nesting of the configuration text.
 const MAX_ACTION_NESTING: u16 = 128;
 
+/// An alias can be used any number of times and its action is then shared, so a short
+/// configuration can describe an enormous tree of actions, e.g. with every alias using the
+/// previous one twice. The passes that run over the parsed actions walk that tree, so its size is
+/// bounded.
+const MAX_ACTIONS: u64 = 1_000_000;
+
+/// Adds to the number of actions in the configuration.
+fn count_actions(expr: &SExpr, s: &ParserState, num_actions: u64) -> Result<()> {
+    let count = s.action_count.get().saturating_add(num_actions);
+    if count > MAX_ACTIONS {
+        bail_expr!(
+            expr,
+            "The configuration has more than {MAX_ACTIONS} actions, counting the action of an alias at every use"
+        );
+    }
+    s.action_count.set(count);
+    Ok(())
+}
+
 /// Counts one more level of action nesting while `parse` runs.
 fn parse_nested<T>(
     expr: &SExpr,
@@ -1734,6 +1764,7 @@ fn parse_nested<T>(
     }
     s.action_nest_count.set(depth + 1);
     s.action_nest_max.set(s.action_nest_max.get().max(depth + 1));
+    count_actions(expr, s, 1)?;
     let res = parse();
     s.action_nest_count.set(depth);
     res
@@ -1872,8 +1903,15 @@ fn parse_action_atom(ac_span: &Spanned<String>, s: &ParserState) -> Result<&'sta
         return match s.aliases.get(alias) {
             Some(ac) => {
                 // The action of the alias is used as it is: its nesting adds to the nesting here.
-                let nesting = (s.action_nest_count.get())
-                    .saturating_add(s.alias_nesting.get(alias).copied().unwrap_or(0));
+                let (alias_nesting, alias_actions) =
+                    s.alias_nesting.get(alias).copied().unwrap_or((0, 0));
+                if let Err(mut e) =
+                    count_actions(&SExpr::Atom(ac_span.clone()), s, alias_actions)
+                {
+                    e.span = Some(ac_span.span.clone());
+                    return Err(e);
+                }
+                let nesting = (s.action_nest_count.get()).saturating_add(alias_nesting);
                 if nesting > MAX_ACTION_NESTING {
                     bail_span!(
                         ac_span,
@@ -2141,7 +2179,7 @@ Params in order:
     let tap_timeout = parse_u16(&ac_params[0], s, "tap timeout")?;
     let hold_timeout = parse_non_zero_u16(&ac_params[1], s, "hold timeout")?;
     let tap_action = parse_action(&ac_params[2], s)?;
-    let hold_action = parse_action(&ac_params[3], s)?;
+    let hold_action = parse_hold_action_also_used_on_timeout(&ac_params[3], s)?;
     if matches!(tap_action, Action::HoldTap { .. }) {
         bail!("tap-hold does not work in the tap-action of tap-hold")
     }
@@ -2153,6 +2191,22 @@ Params in order:
         hold: *hold_action,
         timeout_action: *hold_action,
     }))))
+}
+
+/// Without an explicit timeout action the hold action is also the timeout action, so it occurs
+/// twice in the tap-hold action.
+fn parse_hold_action_also_used_on_timeout(
+    expr: &SExpr,
+    s: &ParserState,
+) -> Result<&'static KanataAction> {
+    let actions_before = s.action_count.get();
+    let hold_action = parse_action(expr, s)?;
+    count_actions(
+        expr,
+        s,
+        s.action_count.get().saturating_sub(actions_before),
+    )?;
+    Ok(hold_action)
 }
 
 fn parse_tap_hold_timeout(
@@ -2204,7 +2258,7 @@ Params in order:
     let tap_timeout = parse_u16(&ac_params[0], s, "tap timeout")?;
     let hold_timeout = parse_non_zero_u16(&ac_params[1], s, "hold timeout")?;
     let tap_action = parse_action(&ac_params[2], s)?;
-    let hold_action = parse_action(&ac_params[3], s)?;
+    let hold_action = parse_hold_action_also_used_on_timeout(&ac_params[3], s)?;
     let tap_trigger_keys = parse_key_list(&ac_params[4], s, "tap-trigger-keys")?;
     if matches!(tap_action, Action::HoldTap { .. }) {
         bail!("tap-hold does not work in the tap-action of tap-hold")
